@@ -127,7 +127,7 @@ func groundScript(fr *FuncResult, o *Obligation) string {
 	if !hasQuant(asserts) {
 		return ""
 	}
-	g := Instantiate(asserts, 3)
+	g := Instantiate(asserts, 4)
 	return Script(g, nil, "", 0)
 }
 
